@@ -12,13 +12,17 @@
   `mode_roundtrip`/`dev_roundtrip` cover the conversion between the archive's stat modes /
   device numbers and what the writer passes to chmod/mknod.
 
+  `unpacking_creates_the_tree` carries this to the file system: `UnTar` onto the `LocalFS` writer
+  over the POSIX model of `Model/LocalFS.lean` creates exactly the tree, directory mtimes included.
+
   Modelled, not verified (exercised on disk by the harness as root: lstat/readlink/xattr/content
   snapshots, both digests, caidx+store, tar-stream input, gnu-tar/mtree output): `filepath.Walk`
-  order, the syscalls of `LocalFS`, `archive/tar`, chunking of the archive (C02) and chunk
-  transport (C03).
+  order and the reading side of `LocalFS`, `archive/tar`, chunking of the archive (C02) and chunk
+  transport (C03); ownership/permissions/xattrs are one abstract stamp in the file-system model.
 -/
 import Desync.Proofs.TarTreeRoundTrip
 import Desync.Proofs.ModeProofs
+import Desync.Proofs.LocalFSRoundTrip
 
 namespace Desync.C05
 open Desync
@@ -80,5 +84,33 @@ def exFile : FileRec := mkRec .reg [102] [97, slash, 102] [97] [1, 2, 3]
 example : Tree.WFList exRoot.path [exRoot.path] [Tree.dir exDir [Tree.leaf exFile]] := by
   simp [Tree.WFList, Tree.WF, LeafWF, XattrsOK, exRoot, exDir, exFile, mkRec, u64len]
   decide
+
+/-! ### the file-system level: what `UnTar` onto `LocalFS` leaves on disk (`Model/LocalFS.lean`) -/
+
+/-- **Unpacking a packed tree onto a fresh destination creates exactly that tree.**  For every
+    well-formed tree (any nesting and fan-out; sibling names distinct and at most 255 bytes), every
+    option set and every file system in which the destination does not exist yet below real
+    directories: `UnTar` of the archive `Tar` writes returns success, and beneath the destination
+    the file system holds exactly the tree — every directory, file, symlink and device node at its
+    path with its contents / target / device numbers, the attribute stamp the options ask for, and
+    the archived modification time set explicitly, *also on directories that got children after
+    they were created* (`finish` re-applies them; the defect D17 and its repair). -/
+theorem unpacking_creates_the_tree (o : LFS.Opts) (root : List LFS.Name) (fs : LFS.FS) (r : FileRec)
+    (cs : List Tree) (b : Bytes)
+    (hroot : LFS.RootOK fs root) (hshort : LFS.Short root)
+    (hfresh : ∀ p, root <+: p → fs.get p = none)
+    (hrk : r.kind = .dir) (hrx : XattrsOK r.xattrs) (hsize : 16 + (cs.length + 1) * 24 < 2 ^ 64)
+    (hcs : Tree.WFList r.path [r.path] cs) (hnames : (Tree.dir r cs).Names)
+    (hb : tarStream (Tree.dir r cs).records = some b) :
+    (LFS.untarFS o root fs b).2 = true ∧
+    ∀ p, root <+: p → ((LFS.untarFS o root fs b).1).get p =
+      (((root, LFS.Obj.dir (LFS.stampOf o r) (LFS.mtimeOf r)) :: Tree.expectList o root cs).lookup p) :=
+  LFS.untar_creates_tree o root fs r cs b hroot hshort hfresh hrk hrx hsize hcs hnames hb
+
+/-- the loop of `UnTar` onto `LocalFS` is the node list of `untar` applied in order, then `finish` -/
+theorem untar_on_disk_is_untar_then_apply (o : LFS.Opts) (root : List LFS.Name) (fs : LFS.FS) (b : Bytes)
+    (nodes : List Node) (h : untar b = .ok nodes) :
+    LFS.untarFS o root fs b = LFS.finishAll (LFS.applyAll o root { fs := fs } nodes) :=
+  LFS.untarFS_of_untar o root fs b nodes h
 
 end Desync.C05
